@@ -19,7 +19,7 @@ import warnings
 import numpy as np
 
 from .. import dofs_common as DC
-from ..core import guarded
+from ..core import guarded, MachineryError
 from ..project import find_scale, fx
 
 RULE = ('scenario = one (mesh, element) basis with one Basis event followed by Query / Complement events; each Query '
@@ -484,16 +484,15 @@ def model(ctx):
     out = os.path.join(ctx.scratch, 'c07_universe.json')
     env = {'OUT_FILE': out, 'TIER': ctx.tier}
     ctx.model_must_hold('MC_C07', 'MC_C07.cfg', env=env, timeout=1500 if ctx.tier == 'thorough' else 600)
-    # the known deviation, at design level: names of edge and facet DOFs differ
+    # signatures whose edge and facet DOFs are named differently: the current name -> row translation holds ...
+    ctx.model_must_hold('MC_C07', 'MC_C07_fixed.cfg', clause_prefix='ModelNamed',
+                        env={'OUT_FILE': '', 'TIER': ctx.tier}, timeout=900)
+    # ... and the translation before fix 28a0105 (offsets nodal, facet, edge) is refuted (regression model)
     r = ctx.tlc_model('MC_C07', 'MC_C07_names.cfg', env={'OUT_FILE': '', 'TIER': ctx.tier}, timeout=600,
-                      label='known deviation: edge and facet DOFs named differently')
-    for inv in r['violated']:
-        ctx.fail(clause=f'Model:{inv}', tags={'mode': 'M', 'cfg': 'MC_C07_names.cfg', 'efnames': 'distinct'},
-                 scenario={'id': 'model:MC_C07_names.cfg', 'recipe': {'driver': 'model', 'cfg': 'MC_C07_names.cfg'},
-                           'events': [], 'tlc_tail': r['out'][-3000:]}, pos=0)
-    if ctx.tier == 'thorough':     # the candidate repair (names read in the element's order) satisfies every clause
-        ctx.model_must_hold('MC_C07', 'MC_C07_fixed.cfg', clause_prefix='ModelFixed',
-                            env={'OUT_FILE': '', 'TIER': ctx.tier}, timeout=600)
+                      label='regression model: name offsets before fix 28a0105')
+    ctx.notes['old_name_offsets_refuted_by_tlc'] = bool(r['violated'])
+    if not r['violated']:
+        raise MachineryError('MC_C07 does not refute the pre-repair name offsets')
     if not os.path.exists(out):
         return []
     doc = json.load(open(out))
